@@ -60,9 +60,19 @@ def enc(x, depth=0):
         return ["b", bytes(x).hex()]
     cls = type(x).__name__
     try:
-        attrs = vars(x)
+        inst = vars(x)
     except TypeError:
         return ["O", cls]
+    # what the object *shows*: instance attributes plus the mutable class-level
+    # data it falls back to (a list that lives on the class is shared state)
+    attrs = {}
+    for c in reversed(type(x).__mro__):
+        for k, v in vars(c).items():
+            if k.startswith("_") or callable(v) or isinstance(v, (property, staticmethod, classmethod)):
+                continue
+            if isinstance(v, (list, dict, set, bytearray)) and len(v) <= 24:
+                attrs[k] = v
+    attrs.update(inst)
     return ["O", cls] + sorted([k, enc(v, depth + 1)] for k, v in attrs.items() if not k.startswith("__"))
 
 
@@ -404,6 +414,8 @@ class Exec(object):
         self.trace.ev("query", op.get("c"), i, name, hashlib.sha256(got.encode()).hexdigest()[:16])
         self.shape.append("q:" + e["mod"])
         self.clauses["C15.same_value"] += 1
+        if self.scribbled:
+            self.clauses["C15.result_private"] += 1
         if got != COLD[i]:
             poisoned = bool(self.scribbled)
             if poisoned:
